@@ -27,7 +27,11 @@ def outcomeStr : Option Outcome → String
   | none => "none"
 
 def handle (inp impl : Json) : CaseResult :=
-  let steps := (jarr inp "steps").toList
+  let allSteps := (jarr inp "steps").toList
+  -- "missed-check": new blocks arrived, the checker was idle, transactions below the confirmed
+  -- nonce were still unresolved, and the monitor asked the chain node nothing (no step of the model)
+  let missed := allSteps.any (fun s => jstr s "t" == "missed-check")
+  let steps := allSteps.filter (fun s => jstr s "t" != "missed-check")
   let ops := steps.map opOf
   let outs := run init ops
   let fin := final init ops
@@ -65,10 +69,11 @@ def handle (inp impl : Json) : CaseResult :=
     (ws.zip expected).all (fun p => jstr p.1 "outcome" == p.2)
   let pendOk := jnat impl "unknown_pending" == 0 &&
     (jarr impl "pending").toList.map (fun x => (x.getNat?).toOption.getD 0) == pend
-  let ok := !(jbool impl "crashed") && truthful && outcomesAsModel && pendOk && !(jbool impl "close_err")
+  let ok := !(jbool impl "crashed") && truthful && outcomesAsModel && pendOk && !(jbool impl "close_err") && !missed
   { model := m, spec := ok,
     why := if ok then "" else
       if jbool impl "crashed" then "process-crashed"
+      else if missed then "unresolved-transactions-not-asked-about-after-new-blocks"
       else if !truthful then "untruthful-outcome"
       else if !outcomesAsModel then "waiter-without-its-one-outcome"
       else if !pendOk then "pending-list-wrong"
